@@ -333,4 +333,4 @@ def replay(rec):
 LEVEL_TEXT = ("contract-based, partial: ghost socket timeout tracked through settimeout() in connect() and for accepted sockets; single "
               "bounded Queue.get in get_msg / receive_pdu; AST scan of the blocking waits. Thread termination (liveness) is not decided. One arbitrary iteration of both reactor loops: non-blocking queue reads, bounded delay, network timeout ends the association by the configured response.")
 LEVEL_NOTE = "level 'other': liveness and dribbling peers are outside function contracts (see not_decided)."
-TECHNIQUE = "deductive: effect-trace contracts with a ghost socket timeout (AST->VC) + exhaustive AST scan of blocking call sites"
+TECHNIQUE = 'deductive: effect-trace contracts with a ghost socket timeout and bounded-wait traces (connect, accepted sockets, get_msg/receive_pdu, reactor iterations, negotiate_release, release, kill; AST->VC) + exhaustive AST scans of blocking call sites and queue constructions'
